@@ -165,7 +165,15 @@ func createXmlNamespaces(attrs []xml.Attr) []XmlNamespace {
 			ret = append(ret, ns)
 		}
 
-		if i.Name.Local == xmlns {
+		if i.Name.Space == xmlns {
+			// xmlns:prefix="uri"
+			ns = XmlNamespace{
+				prefix: i.Name.Local,
+				value:  i.Value,
+			}
+
+			ret = append(ret, ns)
+		} else if i.Name.Local == xmlns && i.Name.Space != "" {
 			ns = XmlNamespace{
 				prefix: i.Name.Space,
 				value:  i.Value,
